@@ -129,6 +129,22 @@ def regions(desc, geo=None):
         par = (geo or {}).get("parallel")
         if outside or par is None or par["n"] != geo["n"] or par["weights"] != geo["weights"]:
             out.add("F22")
+    # U2: a Nest whose outer block holds a derived factor with a complex window.  The outer block's trials are held for
+    # the inner block's length, and so are the window's offsets and its start; `Spec` evaluates windows trial by trial
+    # and cannot judge derived levels there (DESIGN 3.2).  Sampler agreement (C07), the exact CNF correspondence (I8),
+    # exceptions and trial counts stay unmasked.
+    def _designs(b):
+        if "design" in b:
+            return set(b["design"])
+        subs = [b[k] for k in ("b", "outer", "inner") if k in b] + list(b.get("bs", []))
+        return set().union(*[_designs(x) for x in subs]) if subs else set()
+    def _nest_outer_complex(b):
+        if b.get("k") == "nest" and any(_is_complex(fs, f) for f in _designs(b["outer"])):
+            return True
+        subs = [b[k] for k in ("b", "outer", "inner") if k in b] + list(b.get("bs", []))
+        return any(_nest_outer_complex(x) for x in subs)
+    if _nest_outer_complex(desc["block"]):
+        out.add("U2")
     # Exclude on a within-trial derived level whose inputs straddle a crossing: the trial count and the
     # Cross / RandomGen bookkeeping use different notions of "excluded combination"
     for c in D.all_constraints(desc["block"]):
@@ -177,6 +193,7 @@ def known_for(regs, prop, kind):
         ("F22", ("exhaust", "agree", "sound", "sat-exception:IndexError", "random-exception:IndexError", "count", "trialcount", "mismatch", "law", "geometry")),
         ("F19", ("exhaust", "agree", "sound:derived", "sat-exception:RuntimeError", "count")),
         ("U1", ("agree", "exhaust", "sound:constraint", "mismatch")),
+        ("U2", ("sound:derived", "sound:shape", "exhaust", "mismatch")),
         ("F26", ("mismatch:KeyError",)),
         ("F30", ("mismatch:Sequential",)),
         ("F32", ("random-exception:ValueError",)),
@@ -387,7 +404,9 @@ def oracle_c02(ctx, budget_s):
     def first(desc):
         # where solution *sets* (not single sequences) go wrong most easily: weights together with a combinator
         # (constraints are rewritten by desugaring and re-scoped by the combinator)
-        return has_weights(desc) and bool(block_kinds(desc["block"]) & {"repeat", "nest", "merge"})
+        # ... and weights under a window with an explicit start (desugaring rebuilds the window)
+        explicit = any(f["window"] is not None and f["window"].get("start") is not None for f in desc["factors"])
+        return has_weights(desc) and (explicit or bool(block_kinds(desc["block"]) & {"repeat", "nest", "merge"}))
     for case in gen_cases(ctx, budget_s, prefer=first):
         got = check_exhaust(ctx, case, "IterateSATGen", "C02")
         ctx.count("C02.exhaust" + (".empty" if got == {} else ""))
